@@ -103,7 +103,17 @@ def do_step(step, root):
         s0 = snapshot(root)
         st0 = conv.process(overwrite=False)
         pre = {"status": int(st0), "changed": [d[0] for d in snap_diff(s0, snapshot(root))][:6]}
-    status = conv.process(overwrite=step["overwrite"])
+    first_exc = None
+    if step.get("retry_same_object"):
+        # the call fails with an exception (the injected fault is one-shot); the caller catches it and forces a re-run
+        # on the SAME converter object - state the failed call left in the object must not leak into the new output
+        try:
+            status = conv.process(overwrite=step["overwrite"])
+        except (Exception, KeyboardInterrupt) as e:
+            first_exc = type(e).__name__
+            status = conv.process(overwrite=True)
+    else:
+        status = conv.process(overwrite=step["overwrite"])
     post = None
     if step.get("post_noop_call") and status == 1 and Path(root, step["ap_file"]).exists():
         # ... and afterwards the same object is asked again for a plain run: must do nothing
@@ -121,7 +131,7 @@ def do_step(step, root):
             files = [os.path.relpath(p, root) for p in lst]
         except Exception as e:
             files = ["<raised " + type(e).__name__ + ">"]
-    return {"status": int(status), "pre": pre, "post": post, "again": again, "files": files, "trial": trial}
+    return {"status": int(status), "pre": pre, "post": post, "again": again, "files": files, "trial": trial, "first_exc": first_exc}
 
 
 def eligible(label):
@@ -182,6 +192,11 @@ def _gen_step(r, nfaults, first):
         st["pre_noop_call"] = True
         st["overwrite"] = True
         st["fault"] = None
+    if st["fault"] is not None and r.random() < 0.2:
+        # the fault is delivered as an exception, caught by the caller, who forces a re-run on the same converter object
+        st["retry_same_object"] = True
+        st["fault"] = dict(st["fault"], kinds=["io_error", "short", "interrupt"], no_persistent=True)
+        st["delete_original"] = False
     if st["fault"] is None and not st.get("pre_noop_call") and r.random() < 0.1:
         # one converter object: trial conversion of the first samples, then init_params() again and the real run
         st["pre_trial"] = r.choice([600, 1000, 1200])
@@ -447,7 +462,10 @@ def _exec_step(W, st, model, log, stats, bump, seed):
         fr = rng_of(fault["rseed"])
         only = fault.get("only")
         elig = (lambda lab: label_class(lab) == only) if only else eligible
+        nop = fault.get("no_persistent")
         fault = session.place_fault(fr, dr["events"], elig, kinds=tuple(fault.get("kinds") or ("kill", "kill", "io_error", "torn", "corrupt", "interrupt", "short", "short")))
+        if fault and nop:
+            fault.pop("persistent", None)
         st["fault"] = fault
     before = snapshot(W.root)
     sig_before = W.tree_sig()
@@ -544,6 +562,10 @@ def _exec_step(W, st, model, log, stats, bump, seed):
         what = "prior-complete" if model["completed"] and not model["dirty"] else ("fresh" if fresh else "debris")
         raise Violation("C04.S3", f"{kind}:ow{int(st['overwrite'])}:status{status}-but-changed:{what}",
                         f"process returned {status} (did nothing) but the tree changed: {[c[0] for c in changed][:8]} | " + ctx)
+    forced = st["overwrite"]
+    if out and "ok" in out and out["ok"].get("first_exc"):
+        bump("probes", "failed_call_then_forced_rerun_on_the_same_object")
+        forced = True           # the judged call is the forced re-run that followed the failed one on the same object
     partial = bool(st.get("nshank"))
     if partial:
         bump("probes", "partial_shank_run")
@@ -560,9 +582,9 @@ def _exec_step(W, st, model, log, stats, bump, seed):
         if kind == "split" and status != 0:
             raise Violation("C04.S5", f"{sig0}:split-status", f"already-split input returned {status} | " + ctx)
         if kind in ("NP24", "NP24_1sh", "NP21"):
-            if not st["overwrite"] and model["completed"] and not model["dirty"] and status != 0:
+            if not forced and model["completed"] and not model["dirty"] and status != 0:
                 raise Violation("C04.S3", f"{sig0}:rerun-not-noop", f"repeated run without overwrite returned {status} | " + ctx)
-            if st["overwrite"] and status != 1:
+            if forced and status != 1:
                 raise Violation("C04.S4", f"{sig0}:forced-status", f"forced re-run returned {status} | " + ctx)
             if fresh and status != 1:
                 raise Violation("C04.S4", f"{sig0}:first-run-status", f"first run on a fresh directory returned {status} | " + ctx)
